@@ -6526,6 +6526,476 @@ let rec drain fuel b =
         | RErr (_, b') -> b')
      | _ -> b)
 
+type sev =
+| SData of bytes
+| SIntr
+
+(** val strip : sev list -> bytes list **)
+
+let rec strip = function
+| [] -> []
+| s :: r -> (match s with
+             | SData g -> g :: (strip r)
+             | SIntr -> strip r)
+
+(** val count_intr : sev list -> nat **)
+
+let rec count_intr = function
+| [] -> O
+| s :: r -> (match s with
+             | SData _ -> count_intr r
+             | SIntr -> S (count_intr r))
+
+type 's eres =
+| EOk of bytes * 's
+| EErr of ioerr * 's
+| EIntr of 's
+
+(** val emap : ('a1 -> 'a2) -> 'a1 eres -> 'a2 eres **)
+
+let emap f = function
+| EOk (o, s) -> EOk (o, (f s))
+| EErr (e, s) -> EErr (e, (f s))
+| EIntr s -> EIntr (f s)
+
+type src_e = { bbuf_e : bytes; lo_e : bytes; evs_e : sev list; sfuel_e : 
+               nat; stake_e : n option }
+
+(** val mk_src_e : bytes -> sev list -> src_e **)
+
+let mk_src_e leftover evs =
+  { bbuf_e = []; lo_e = leftover; evs_e = evs; sfuel_e =
+    (add
+      (add
+        (mul (S (S (S (S O)))) (S
+          (add (length leftover) (length (concat (strip evs)))))) (S (S (S (S
+        (S (S (S (S O))))))))) (count_intr evs)); stake_e = None }
+
+(** val mk_src_take_e : bytes -> sev list -> n -> src_e **)
+
+let mk_src_take_e leftover evs limit =
+  { bbuf_e = []; lo_e = leftover; evs_e = evs; sfuel_e =
+    (add
+      (add
+        (mul (S (S (S (S O)))) (S
+          (add (length leftover) (length (concat (strip evs)))))) (S (S (S (S
+        (S (S (S (S O))))))))) (count_intr evs)); stake_e = (Some limit) }
+
+(** val stream_read_e : n -> sev list -> sev list eres **)
+
+let rec stream_read_e k = function
+| [] -> EOk ([], [])
+| s :: rest ->
+  (match s with
+   | SData g ->
+     (match g with
+      | [] -> stream_read_e k rest
+      | _ :: _ ->
+        let out = firstnN k g in
+        (match skipnN k g with
+         | [] -> EOk (out, rest)
+         | b :: l -> EOk (out, ((SData (b :: l)) :: rest))))
+   | SIntr -> EIntr rest)
+
+(** val inner_read_e : n -> bytes -> sev list -> (bytes * sev list) eres **)
+
+let inner_read_e k l ev0 =
+  match l with
+  | [] -> emap (fun ev' -> ([], ev')) (stream_read_e k ev0)
+  | _ :: _ -> EOk ((firstnN k l), ((skipnN k l), ev0))
+
+(** val take_read_e : n -> src_e -> ((bytes * sev list) * n option) eres **)
+
+let take_read_e k s =
+  match s.stake_e with
+  | Some lim ->
+    if N.eqb lim N0
+    then EOk ([], ((s.lo_e, s.evs_e), (Some N0)))
+    else (match inner_read_e (N.min k lim) s.lo_e s.evs_e with
+          | EOk (out, t) -> EOk (out, (t, (Some (N.sub lim (lenN out)))))
+          | EErr (e, t) -> EErr (e, (t, (Some lim)))
+          | EIntr t -> EIntr (t, (Some lim)))
+  | None -> emap (fun t -> (t, None)) (inner_read_e k s.lo_e s.evs_e)
+
+(** val with_tail :
+    src_e -> bytes -> ((bytes * sev list) * n option) -> src_e **)
+
+let with_tail s b = function
+| (p, tk) ->
+  let (l', ev') = p in
+  { bbuf_e = b; lo_e = l'; evs_e = ev'; sfuel_e = s.sfuel_e; stake_e = tk }
+
+(** val fill_buf_e : src_e -> src_e eres **)
+
+let fill_buf_e s =
+  match s.bbuf_e with
+  | [] ->
+    (match take_read_e bUF_SIZE s with
+     | EOk (out, t) -> EOk (out, (with_tail s out t))
+     | EErr (e, t) -> EErr (e, (with_tail s [] t))
+     | EIntr t -> EIntr (with_tail s [] t))
+  | _ :: _ -> EOk (s.bbuf_e, s)
+
+(** val consume_e : n -> src_e -> src_e **)
+
+let consume_e n0 s =
+  { bbuf_e = (skipnN n0 s.bbuf_e); lo_e = s.lo_e; evs_e = s.evs_e; sfuel_e =
+    s.sfuel_e; stake_e = s.stake_e }
+
+(** val buf_read_e : n -> src_e -> src_e eres **)
+
+let buf_read_e k s =
+  match s.bbuf_e with
+  | [] ->
+    if N.leb bUF_SIZE k
+    then (match take_read_e k s with
+          | EOk (out, t) -> EOk (out, (with_tail s [] t))
+          | EErr (e, t) -> EErr (e, (with_tail s [] t))
+          | EIntr t -> EIntr (with_tail s [] t))
+    else (match fill_buf_e s with
+          | EOk (_, s') -> EOk ((firstnN k s'.bbuf_e), (consume_e k s'))
+          | x -> x)
+  | _ :: _ -> EOk ((firstnN k s.bbuf_e), (consume_e k s))
+
+(** val read_exact_loop_e :
+    nat -> n -> src_e -> bytes -> (bytes * src_e) option **)
+
+let rec read_exact_loop_e fuel n0 s acc =
+  if N.eqb n0 N0
+  then Some (acc, s)
+  else (match fuel with
+        | O -> None
+        | S fuel' ->
+          (match buf_read_e n0 s with
+           | EOk (out, s') ->
+             (match out with
+              | [] -> None
+              | _ :: _ ->
+                read_exact_loop_e fuel' (N.sub n0 (lenN out)) s' (app acc out))
+           | EErr (_, _) -> None
+           | EIntr s' -> read_exact_loop_e fuel' n0 s' acc))
+
+(** val read_exact_e : n -> src_e -> (bytes * src_e) option **)
+
+let read_exact_e n0 s =
+  if N.leb n0 (lenN (firstnN n0 s.bbuf_e))
+  then Some ((firstnN n0 s.bbuf_e), (consume_e n0 s))
+  else read_exact_loop_e (add (N.to_nat n0) (count_intr s.evs_e)) n0 s []
+
+(** val read_until_lf_e : nat -> src_e -> bytes -> bytes * src_e **)
+
+let rec read_until_lf_e fuel s acc =
+  match fuel with
+  | O -> (acc, s)
+  | S fuel' ->
+    (match fill_buf_e s with
+     | EOk (avail, s1) ->
+       (match find_index (eqb0 X0a) avail with
+        | Some i ->
+          ((app acc (firstn (S i) avail)), (consume_e (N.of_nat (S i)) s1))
+        | None ->
+          (match avail with
+           | [] -> (acc, s1)
+           | _ :: _ ->
+             read_until_lf_e fuel' (consume_e (lenN avail) s1) (app acc avail)))
+     | EErr (_, s1) -> (acc, s1)
+     | EIntr s1 -> read_until_lf_e fuel' s1 acc)
+
+(** val read_line_e : src_e -> (bytes, ioerr) sum * src_e **)
+
+let read_line_e s =
+  let (line, s') = read_until_lf_e s.sfuel_e s [] in
+  if utf8_valid line then ((Inl line), s') else ((Inr EInvalidData), s')
+
+type fixed_e = { f_src_e : src_e; f_remaining_e : n }
+
+(** val fixed_read_e : n -> fixed_e -> fixed_e eres **)
+
+let fixed_read_e k r =
+  if (||) (N.eqb r.f_remaining_e N0) (N.eqb k N0)
+  then EOk ([], r)
+  else let to_read = N.min r.f_remaining_e k in
+       (match buf_read_e to_read r.f_src_e with
+        | EOk (out, s') ->
+          (match out with
+           | [] ->
+             EErr (EUnexpectedEof, { f_src_e = s'; f_remaining_e =
+               r.f_remaining_e })
+           | _ :: _ ->
+             EOk (out, { f_src_e = s'; f_remaining_e =
+               (N.sub r.f_remaining_e (lenN out)) }))
+        | EErr (e, s') ->
+          EErr (e, { f_src_e = s'; f_remaining_e = r.f_remaining_e })
+        | EIntr s' -> EIntr { f_src_e = s'; f_remaining_e = r.f_remaining_e })
+
+(** val fixed_fill_buf_e : fixed_e -> fixed_e eres **)
+
+let fixed_fill_buf_e r =
+  if N.eqb r.f_remaining_e N0
+  then EOk ([], r)
+  else (match fill_buf_e r.f_src_e with
+        | EOk (b, s') ->
+          (match b with
+           | [] ->
+             EErr (EUnexpectedEof, { f_src_e = s'; f_remaining_e =
+               r.f_remaining_e })
+           | _ :: _ ->
+             EOk ((firstnN r.f_remaining_e b), { f_src_e = s';
+               f_remaining_e = r.f_remaining_e }))
+        | EErr (e, s') ->
+          EErr (e, { f_src_e = s'; f_remaining_e = r.f_remaining_e })
+        | EIntr s' -> EIntr { f_src_e = s'; f_remaining_e = r.f_remaining_e })
+
+(** val fixed_consume_e : n -> fixed_e -> fixed_e **)
+
+let fixed_consume_e amt r =
+  { f_src_e = (consume_e amt r.f_src_e); f_remaining_e =
+    (N.sub r.f_remaining_e amt) }
+
+type chunked_e = { c_src_e : src_e; c_state_e : cstate; c_remaining_e : n }
+
+(** val read_chunk_size_e : chunked_e -> chunked_e rres0 **)
+
+let read_chunk_size_e c =
+  let (r, s') = read_line_e c.c_src_e in
+  let st = fun e -> RErr (e, { c_src_e = s'; c_state_e = c.c_state_e;
+    c_remaining_e = c.c_remaining_e })
+  in
+  (match r with
+   | Inl line ->
+     (match line with
+      | [] -> st EUnexpectedEof
+      | _ :: _ ->
+        (match strip_suffix_byte X0a line with
+         | Some l1 ->
+           let l2 =
+             match strip_suffix_byte X0d l1 with
+             | Some x -> x
+             | None -> l1
+           in
+           let hex = match split_on X3b l2 with
+                     | [] -> []
+                     | h :: _ -> h in
+           (match hex with
+            | [] -> st EInvalidData
+            | _ :: _ ->
+              if forallb is_hexdigit hex
+              then (match parse_hex N0 hex with
+                    | Some n0 ->
+                      ROk ([], { c_src_e = s'; c_state_e =
+                        (if N.eqb n0 N0 then CTrailer else CData);
+                        c_remaining_e = n0 })
+                    | None -> st EInvalidData)
+              else st EInvalidData)
+         | None -> st EUnexpectedEof))
+   | Inr e -> st e)
+
+(** val trailer_loop_e : nat -> src_e -> ioerr option * src_e **)
+
+let rec trailer_loop_e fuel s =
+  match fuel with
+  | O -> ((Some EUnexpectedEof), s)
+  | S fuel' ->
+    let (r, s') = read_line_e s in
+    (match r with
+     | Inl line ->
+       (match line with
+        | [] -> ((Some EUnexpectedEof), s')
+        | _ :: _ ->
+          if (||) (bytes_eqb line (X0d :: (X0a :: [])))
+               (bytes_eqb line (X0a :: []))
+          then (None, s')
+          else trailer_loop_e fuel' s')
+     | Inr e -> ((Some e), s'))
+
+(** val advance_e : nat -> chunked_e -> chunked_e rres0 **)
+
+let rec advance_e fuel c =
+  match fuel with
+  | O -> RErr (EInvalidData, c)
+  | S fuel' ->
+    (match c.c_state_e with
+     | CSize ->
+       (match read_chunk_size_e c with
+        | ROk (_, c') -> advance_e fuel' c'
+        | RErr (e0, st) -> RErr (e0, st))
+     | CData ->
+       if N.eqb c.c_remaining_e N0
+       then advance_e fuel' { c_src_e = c.c_src_e; c_state_e = CCrlf;
+              c_remaining_e = N0 }
+       else ROk ([], c)
+     | CCrlf ->
+       (match read_exact_e (Npos (XO XH)) c.c_src_e with
+        | Some p ->
+          let (crlf, s') = p in
+          if bytes_eqb crlf (X0d :: (X0a :: []))
+          then advance_e fuel' { c_src_e = s'; c_state_e = CSize;
+                 c_remaining_e = c.c_remaining_e }
+          else RErr (EInvalidData, { c_src_e = s'; c_state_e = CCrlf;
+                 c_remaining_e = c.c_remaining_e })
+        | None -> RErr (EUnexpectedEof, c))
+     | CTrailer ->
+       let (o, s') = trailer_loop_e c.c_src_e.sfuel_e c.c_src_e in
+       (match o with
+        | Some e ->
+          RErr (e, { c_src_e = s'; c_state_e = CTrailer; c_remaining_e =
+            c.c_remaining_e })
+        | None ->
+          advance_e fuel' { c_src_e = s'; c_state_e = CDone; c_remaining_e =
+            c.c_remaining_e })
+     | CDone -> ROk ([], c))
+
+(** val adv_fuel_e : chunked_e -> nat **)
+
+let adv_fuel_e c =
+  c.c_src_e.sfuel_e
+
+(** val chunked_read_loop_e :
+    nat -> n -> chunked_e -> bytes -> chunked_e eres **)
+
+let rec chunked_read_loop_e fuel k c written =
+  match fuel with
+  | O -> EOk (written, c)
+  | S fuel' ->
+    (match advance_e (adv_fuel_e c) c with
+     | ROk (_, c1) ->
+       (match c1.c_state_e with
+        | CDone -> EOk (written, c1)
+        | _ ->
+          if N.eqb k N0
+          then EOk (written, c1)
+          else let to_read = N.min c1.c_remaining_e k in
+               let back = fun s' -> { c_src_e = s'; c_state_e = c1.c_state_e;
+                 c_remaining_e = c1.c_remaining_e }
+               in
+               (match buf_read_e to_read c1.c_src_e with
+                | EOk (out, s') ->
+                  (match out with
+                   | [] -> EErr (EUnexpectedEof, (back s'))
+                   | _ :: _ ->
+                     let n0 = lenN out in
+                     let c2 = { c_src_e = s'; c_state_e = c1.c_state_e;
+                       c_remaining_e = (N.sub c1.c_remaining_e n0) }
+                     in
+                     if (||) (N.eqb c2.c_remaining_e N0)
+                          (N.eqb (N.sub k n0) N0)
+                     then EOk ((app written out), c2)
+                     else chunked_read_loop_e fuel' (N.sub k n0) c2
+                            (app written out))
+                | EErr (e, s') ->
+                  (match written with
+                   | [] -> EErr (e, (back s'))
+                   | _ :: _ -> EOk (written, (back s')))
+                | EIntr s' ->
+                  (match written with
+                   | [] -> EIntr (back s')
+                   | _ :: _ -> EOk (written, (back s')))))
+     | RErr (e, c') -> EErr (e, c'))
+
+(** val chunked_read_e : n -> chunked_e -> chunked_e eres **)
+
+let chunked_read_e k c =
+  chunked_read_loop_e c.c_src_e.sfuel_e k c []
+
+(** val chunked_fill_buf_e : chunked_e -> chunked_e eres **)
+
+let chunked_fill_buf_e c =
+  match advance_e (adv_fuel_e c) c with
+  | ROk (_, c1) ->
+    (match c1.c_state_e with
+     | CDone -> EOk ([], c1)
+     | _ ->
+       let back = fun s' -> { c_src_e = s'; c_state_e = c1.c_state_e;
+         c_remaining_e = c1.c_remaining_e }
+       in
+       (match fill_buf_e c1.c_src_e with
+        | EOk (b, s') ->
+          (match b with
+           | [] -> EErr (EUnexpectedEof, (back s'))
+           | _ :: _ -> EOk ((firstnN c1.c_remaining_e b), (back s')))
+        | EErr (e, s') -> EErr (e, (back s'))
+        | EIntr s' -> EIntr (back s')))
+  | RErr (e, c') -> EErr (e, c')
+
+(** val chunked_consume_e : n -> chunked_e -> chunked_e **)
+
+let chunked_consume_e amt c =
+  { c_src_e = (consume_e amt c.c_src_e); c_state_e = c.c_state_e;
+    c_remaining_e = (N.sub c.c_remaining_e amt) }
+
+type body_e =
+| BFixed_e of fixed_e
+| BChunked_e of chunked_e
+| BEof_e of src_e
+| BEmpty_e of src_e
+
+(** val new_fixed_e : bytes -> sev list -> n -> body_e **)
+
+let new_fixed_e leftover evs len =
+  BFixed_e { f_src_e = (mk_src_take_e leftover evs len); f_remaining_e = len }
+
+(** val new_chunked_e : bytes -> sev list -> body_e **)
+
+let new_chunked_e leftover evs =
+  BChunked_e { c_src_e = (mk_src_e leftover evs); c_state_e = CSize;
+    c_remaining_e = N0 }
+
+(** val body_read_e : n -> body_e -> body_e eres **)
+
+let body_read_e k b = match b with
+| BFixed_e r -> emap (fun x -> BFixed_e x) (fixed_read_e k r)
+| BChunked_e c -> emap (fun x -> BChunked_e x) (chunked_read_e k c)
+| BEof_e s -> emap (fun x -> BEof_e x) (buf_read_e k s)
+| BEmpty_e _ -> EOk ([], b)
+
+(** val body_fill_buf_e : body_e -> body_e eres **)
+
+let body_fill_buf_e b = match b with
+| BFixed_e r -> emap (fun x -> BFixed_e x) (fixed_fill_buf_e r)
+| BChunked_e c -> emap (fun x -> BChunked_e x) (chunked_fill_buf_e c)
+| BEof_e s -> emap (fun x -> BEof_e x) (fill_buf_e s)
+| BEmpty_e _ -> EOk ([], b)
+
+(** val body_consume_e : n -> body_e -> body_e **)
+
+let body_consume_e amt b = match b with
+| BFixed_e r -> BFixed_e (fixed_consume_e amt r)
+| BChunked_e c -> BChunked_e (chunked_consume_e amt c)
+| BEof_e s -> BEof_e (consume_e amt s)
+| BEmpty_e _ -> b
+
+(** val read_all_e :
+    body_e -> n list -> bytes -> (bytes * outcome) * body_e **)
+
+let rec read_all_e b sizes acc =
+  match sizes with
+  | [] -> ((acc, More), b)
+  | k :: rest ->
+    (match body_read_e k b with
+     | EOk (out, b') ->
+       (match out with
+        | [] -> ((acc, AtEof), b')
+        | _ :: _ -> read_all_e b' rest (app acc out))
+     | EErr (e, b') -> ((acc, (Failed e)), b')
+     | EIntr b' -> read_all_e b' rest acc)
+
+(** val bufread_all_e :
+    body_e -> n list -> bytes -> (bytes * outcome) * body_e **)
+
+let rec bufread_all_e b amts acc =
+  match amts with
+  | [] -> ((acc, More), b)
+  | a :: rest ->
+    (match body_fill_buf_e b with
+     | EOk (avail, b') ->
+       (match avail with
+        | [] -> ((acc, AtEof), b')
+        | _ :: _ ->
+          let got = firstnN a avail in
+          bufread_all_e (body_consume_e (lenN got) b') rest (app acc got))
+     | EErr (e, b') -> ((acc, (Failed e)), b')
+     | EIntr b' -> bufread_all_e b' rest acc)
+
 (** val hexdig : byte -> bool **)
 
 let hexdig = function
